@@ -979,9 +979,20 @@ def hijack_monitor(case, ob):
             bad.append("object %d: re-submitting the object read back changed it: %s" % (i, st.get("diff_resubmit", "")))
         if not st["template_unchanged"]:
             bad.append("object %d: re-submitting the object read back changed its pod template" % i)
+        if st.get("updated_nil") or st.get("updated_equals_got2") is False:
+            bad.append("object %d: Update through the hijack client returned %s, not the stored object" % (i, "nothing" if st.get("updated_nil") else "something else"))
+        if st.get("err_updstatus"):
+            bad.append("object %d: UpdateStatus through the hijack client failed: %s" % (i, st["err_updstatus"]))
+        elif st.get("status_roundtrip") is False:
+            bad.append("object %d: a status written through the hijack client did not come back (or disturbed the spec)" % i)
         d = first_diff(st["got"], st["got2"])
         if d:
             bad.append("object %d: JSON differs after re-submission: %s" % (i, d))
+    for probe, want in (("dup_create", "exists"), ("ghost_update", "notfound"), ("ghost_updstatus", "notfound"), ("ghost_get", "notfound")):
+        pr = ob.get(probe)
+        if pr is not None and not (pr.get(want) and pr.get("result_nil")):
+            bad.append("%s: the error of the Advanced StatefulSet API did not reach the caller (err=%r, result %s)" % (
+                probe, pr.get("err"), "nil" if pr.get("result_nil") else "not nil"))
     if ob.get("err_list"):
         bad.append("List failed: " + ob["err_list"])
     elif "list" in ob:
